@@ -147,6 +147,11 @@ V_C11(e, okR, c, r, r2, rec, st2) ==
       \cup If(~fwd /\ <<p.src, p.dst, p.seq, "unauth">> \notin r2.ak, Lbl("C11", "disallowed_packet_without_error_ack", ""))
       \cup If(rec.app[c] # app[c], Lbl("C11", "token_state_changed_on_relay_chain", ""))
       ELSE {})
+\cup \* a relay chain that does not know the destination answers with an error acknowledgement: the message that would have
+     \* been accepted had the chain known the destination must not simply fail (the packet could never be settled)
+     If(e.act = "Recv" /\ ~okR /\ e.pkt.relay = c /\ e.pkt.dst # c /\ e.pkt.dst \notin r.cl
+          /\ RecvResA(c, [r EXCEPT !.cl = @ \cup {e.pkt.dst}], e.pkt, e.proof, "mock").ok,
+        Lbl("C11", "relay_without_destination_client_wrote_no_error_ack", ""))
 \cup (IF e.act = "Ack" /\ okR /\ e.pkt.relay = c /\ e.pkt.src # c THEN
            If(<<e.pkt.src, e.pkt.dst, e.pkt.seq, e.ack>> \notin r2.ak, Lbl("C11", "ack_not_passed_on_unchanged", ""))
       \cup If(rec.app[c] # app[c], Lbl("C11", "token_state_changed_on_relay_chain", ""))
